@@ -153,7 +153,7 @@ theorem pcr_strand_symmetry (P : Primers) (hP : PrimersOk P) (hM : PrimersMirror
   · intro ha
     have hrr : pcr P o (SeqOps.rc (SeqOps.rc seq)) = .ok l := by rw [rc_rc seq hs]; exact h
     have := flip_mem P hP hM o hc (SeqOps.rc seq) (rc_iupac seq hs) l' l h' hrr a ha
-    rw [rc_length] at this
+    rw [Pcr.rc_length] at this
     exact List.mem_map.mpr ⟨_, this, flipAmp_flipAmp _ a⟩
   · intro ha
     obtain ⟨x, hx, rfl⟩ := List.mem_map.mp ha
@@ -381,7 +381,7 @@ theorem pcr_strand_symmetry_circular (P : Primers) (hP : PrimersOk P) (hM : Prim
     (l l' : List Amplicon) (h : pcr P o seq = .ok l) (h' : pcr P o (SeqOps.rc seq) = .ok l') :
     l'.Perm (l.map (flipC seq.length)) := by
   have hrr : pcr P o (SeqOps.rc (SeqOps.rc seq)) = .ok l := by rw [rc_rc seq hs]; exact h
-  have hL' : PrimersFit P (SeqOps.rc seq).length := by rw [rc_length]; exact hL
+  have hL' : PrimersFit P (SeqOps.rc seq).length := by rw [Pcr.rc_length]; exact hL
   have hnd : (l.map (flipC seq.length)).Nodup := by
     rw [List.nodup_iff_pairwise_ne, List.pairwise_map]
     refine (List.nodup_iff_pairwise_ne.mp (pcr_nodup P o seq l h)).imp_of_mem ?_
@@ -394,7 +394,7 @@ theorem pcr_strand_symmetry_circular (P : Primers) (hP : PrimersOk P) (hM : Prim
   · intro ha
     have h1 := flip_mem_circ P hP hM o hc (SeqOps.rc seq) (rc_iupac seq hs) hL' l' l h' hrr a ha
     have h2 := flipC_flipC_mem P hP o hc (SeqOps.rc seq) (rc_iupac seq hs) hL' l' h' a ha
-    rw [rc_length] at h1 h2
+    rw [Pcr.rc_length] at h1 h2
     exact List.mem_map.mpr ⟨_, h1, h2⟩
   · intro ha
     obtain ⟨x, hx, rfl⟩ := List.mem_map.mp ha
@@ -529,7 +529,7 @@ theorem pcr_strand_symmetry_circular_grammar (tf tr : List Tok) (hf : ∀ t ∈ 
       (l'.map obs).Perm (l.map fun a => (!a.isForward, a.seq, a.fmatch, a.ferr, a.rmatch, a.rerr)) := by
   obtain ⟨P, hP, hok, hmir, _⟩ := mkPrimers_grammar tf tr hf hr hfn hrn hfl hrl ef er
   have hL := primersFit_of_64 P hok seq.length h64
-  have hL' : PrimersFit P (SeqOps.rc seq).length := by rw [rc_length]; exact hL
+  have hL' : PrimersFit P (SeqOps.rc seq).length := by rw [Pcr.rc_length]; exact hL
   obtain ⟨l, hl⟩ := pcr_total_circular P hok o hc seq hL
   obtain ⟨l', hl'⟩ := pcr_total_circular P hok o hc (SeqOps.rc seq) hL'
   exact ⟨P, l, l', hP, hl, hl', pcr_strand_symmetry_circular P hok hmir o hc seq hs hL l l' hl hl',
